@@ -32,10 +32,10 @@ def run_for(ctx, pid, num_quick=120, num_thorough=648):
         seen.add(key)
         divs, inst = ad.run_config(exp, ctx.seed, work)
         ctx.traces += 1
-        ctx.steps += len(exp["reads"]) + len(exp["gains"])
+        ctx.steps += sum(len(r["reads"]) + len(r["gains"]) for r in exp["recs"])
         ctx.mark(key + tuple(sorted((k, str(v)) for k, v in inst.items())))
         if len(ctx.samples) < 2:
-            ctx.sample({"leg": "R", "cfg": exp["cfg"], "instantiation": inst, "expected": {k: exp[k] for k in ("numBlocks", "reads", "gains")}})
+            ctx.sample({"leg": "R", "cfg": exp["cfg"], "instantiation": inst, "expected_recordings": exp["recs"]})
         for d in divs:
             if pid not in d.cls.split("|"):
                 continue
